@@ -262,3 +262,13 @@ package sweep
 //@   site store BumpRequest.Budget: assert value == ret(Budget)
 //@   site store BumpRequest.DeadlineHeight: assert value == ret(DeadlineHeight)
 //@   site store BumpRequest.StartingFeeRate: assert value == ret(StartingFeeRate)
+//@
+//@ // ---- an input re-offered while our earlier sweep of it is still unconfirmed (restart): the next sweep starts from the fee RATE of the
+//@ // ---- recorded transaction and remembers its absolute fee - the two are different units and both come from the stored record
+//@ func (s *UtxoSweeper) decideRBFInfo
+//@   props C18
+//@   loop * havoc
+//@   site store RBFInfo.FeeRate: assert value == swrap(retn(GetTx, 0).FeeRate, 64) && retn(GetTx, 1) == nil
+//@   site store RBFInfo.Fee: assert value == swrap(retn(GetTx, 0).Fee, 64) && retn(GetTx, 1) == nil
+//@   site store RBFInfo.Txid: assert value == ret(TxHash, 0)
+//@   site call GetTx: assert arg(1) == ret(TxHash, 0)
